@@ -335,7 +335,7 @@ func (w *world) randomParams(r *c.Rng, ctx sdk.Context) {
 			a.Active = true
 		}
 	}
-	k.SetParams(ctx, p)
+	kapp.SetParams(w.tApp, ctx, "bep3", &p, func() { k.SetParams(ctx, p) })
 }
 
 type opDesc struct {
